@@ -232,6 +232,37 @@ def run(chk):
         if got != want and first is None:
             first = ("default constructor binding: implementation prints %s, 'initialisers first, then the constructor binds its arguments' gives %s"
                      % (got, want), {"source": src, "kind": "default-binding"})
+    # a `return` inside one destructor of the chain ends that destructor only
+    drs = []
+    for _ in range(300 if chk.thorough else 30):
+        depth = rng.randrange(2, 5)
+        rets = [rng.random() < 0.5 for _ in range(depth)]
+        hasd = [rng.random() < 0.85 for _ in range(depth)]
+        src, want = [], []
+        for i in range(depth):
+            d = ""
+            if hasd[i]:
+                d = " public destructor() -> void { echo(\"~R%d a\"); if (k == 1) { %s } echo(\"~R%d b\"); }" % (i, "return;" if rets[i] else "echo(\"-\");", i)
+            src.append("class R%d%s { %spublic constructor() -> R%d = default;%s }" % (i, (" extends R%d" % (i - 1)) if i else "", "public int k = 1; " if i == 0 else "", i, d))
+        for i in reversed(range(depth)):
+            if hasd[i]:
+                want.append("~R%d a" % i)
+                if not rets[i]:
+                    want += ["-", "~R%d b" % i]
+        if rng.random() < 0.5:
+            src.append("function main() -> void { { R%d o = new R%d(); echo(\"in\"); } echo(\"after\"); }" % (depth - 1, depth - 1))
+        else:
+            # the object dies while a `return` of its function is unwinding
+            src.append("function mk() -> int { R%d o = new R%d(); echo(\"in\"); return 5; }\nfunction main() -> void { int r = mk(); echo(\"after\"); }" % (depth - 1, depth - 1))
+        drs.append(("\n".join(src), ["in"] + want + ["after"]))
+    _l3, drimpl, _m3, _inc3 = evallib.run_programs([(d[0], []) for d in drs], with_model=False)
+    for (src, want), a in zip(drs, drimpl):
+        chk.count(("destructor-return", src))
+        got = evallib.split_result(a).get("echo_lines") if a.startswith("ok ") else [a[:120]]
+        if got != want and first is None:
+            first = ("destructor chain with returns: implementation prints %s, 'derived first, each destructor to its own return' gives %s" % (got, want),
+                     {"source": src, "kind": "destructor-return"})
+    kinds["destructor-return programs"] = len(drs)
     kinds["default-binding programs"] = len(dbs)
     kinds["lifetime programs"] = len(lps)
     chk.extra["input_distribution"] = kinds
